@@ -34,6 +34,30 @@ CHECKS = {
  'C19': ('exploration', 'C', 'exhaustive enumeration of the configuration matrix of sdeint/sdeint_adjoint against the documentation table; spying Brownian proxy',
          "Full product sde_type x noise_type x method x levy x {bm given, None} x adaptive x logqp (x grad_free), adjoint_method for every supported forward cell, 92 malformed-argument cases in both entry points, and the default-method table: documented cells run (and the solver that queries the proxy is the documented one), every other forward cell raises ValueError with zero Brownian queries, inadmissible adjoint methods raise out of backward() with no gradient populated.",
          "oracle table transcribed from DOCUMENTATION.md and solver docstrings (log_ode from its module docstring); one tiny problem per (sde_type, noise_type)"),
+ 'C08': ('exploration', 'C+D', 'exhaustive enumeration of cells x programs x ts/dt patterns; full Jacobian by backprop vs central finite differences',
+         "For every supported solver/noise cell (incl. grad-free Milstein, log-ODE with Davie and Foster, adaptive with saturated step factor) the complete Jacobian of all output entries with respect to y0 and every parameter entry obtained by backprop equals central differences of sdeint with the Brownian object held fixed (2e-6 relative; observed 5e-10). Linearity in the loss weights makes this a statement about all loss weightings.",
+         "program alphabet of mc/zoo.py; float64 differences with step 1e-6"),
+ 'C09': ('exploration', 'C+D', 'exhaustive enumeration of the admissible adjoint matrix (exact forward equality, gradient-target subsets, loss-support subsets) plus a bounded dt ladder with calibrated ceilings',
+         "On all 92 admissible (sde_type, noise_type, method, adjoint_method) cells sdeint_adjoint returns torch.equal values to sdeint (also extra/logqp); for every subset of {y0, parameters} (requires_grad and adjoint_params styles) exactly the requested tensors receive gradients and their values do not depend on the request set; gradients are additive over every subset of output times. Along dt = 2^-3..2^-7(9) with a fixed 128-path batch the relative gradient error against backprop and closed-form GBM gradients at least halves and stays under ceilings calibrated at 4x the worst of 16 entropies.",
+         "the limit dt->0 is not decided by enumeration; C11 (exact vector fields) and C10 carry the sharp part"),
+ 'C10': ('exploration', 'D', 'exhaustive enumeration of aligned ts subsets x dt x programs x one-hot loss basis; adjoint vs backprop gradients',
+         "Four noise types, programs and batch sizes of the alphabet, dt in {1/2,1/4,1/8}, subsets of the dt-lattice as ts, the full one-hot basis of loss weights plus a dense weighting: gradients from the reversible Heun adjoint equal backprop through sdeint(reversible_heun) to 1e-9 relative (observed 5e-16).",
+         "aligned ts only (the property's precondition); misalignment warnings are turned into errors"),
+ 'C11': ('exploration', 'D', 'exhaustive enumeration of (sde_type, noise_type) x programs x parameter sets x augmented states; elementwise comparison with independently derived adjoint fields',
+         "AdjointSDE.f, g_prod, f_and_g_prod and the diagonal Milstein term equal the augmented Stratonovich adjoint fields converted to the SDE's calculus by the generic Ito-Stratonovich rule with explicit Jacobians (1e-10), for parameter sets incl. unused parameters; no graph under no_grad; derivative through the fields matches finite differences when enabled.",
+         "first derivatives of the user program by torch.autograd are trusted"),
+ 'C15': ('exploration', 'D', 'exhaustive enumeration of programs x step sizes x Gauss-Hermite increment grids (single step via scripted Brownian stub) and step counts (sdeint + ReverseBrownian)',
+         "The reverse step (same step function on the negated, time-reversed SDE with negated extra state) applied to a forward step's output returns (y, f, g, z) to 1e-12 for every grid increment, from a generic extra state; multi-step solves are reconstructed to rounding scaled by the measured amplification of the reverse recursion.",
+         "identity checked numerically on the program alphabet, not symbolically in f and g"),
+ 'C17': ('exploration', 'C+D', 'exhaustive enumeration of special-noise programs x general embeddings x solvers accepting both',
+         "diagonal, scalar and additive programs and their d x m general embeddings give the same solution (1e-13; observed identical) under equal-entropy Brownian motions for euler, euler_heun, heun, midpoint, reversible_heun and log_ode with Davie and Foster areas, batch 1 and 3, aligned and unaligned dt.",
+         "program alphabet of mc/zoo.py"),
+ 'C18': ('exploration', 'C+D', 'exhaustive enumeration of cells x output-time subsets x dt against a harness-built augmented system and an exact family',
+         "For every supported cell: logqp has shape (len(ts)-1, batch), is non-negative, additive over refinements of ts, equals the integral of 1/2|g^+(f-h)|^2 accumulated by the same solver on an augmented system written by the harness, equals 1/2|c|^2 dt exactly when f-h=g c, and the state trajectory is torch.equal to the run without logqp under the same noise.",
+         "program alphabet; diagonal noise uses a proxy Brownian motion whose first d channels are the original"),
+ 'C20': ('exploration', 'C+A', 'exhaustive enumeration of rows x perturbations x permutations (bitwise) and of every element of every noise draw through the numeric-table seam',
+         "For every supported cell and batch 2-3: perturbing another row of y0 or of any noise draw leaves a row bit-identical, permuting rows permutes outputs. On the Brownian side, for every Levy mode, shape and cache size, perturbing any single element of any W-, H- or Levy-noise draw moves only the entries the property allows.",
+         "row-wise SDE programs; sizes as stated (exhaustive for those sizes)"),
 }
 def main():
     checks = []
